@@ -10,6 +10,7 @@
 #include "gen.hpp"
 #include "oracle.hpp"
 #include "solver.hpp"
+#include "local_mesh_refiner.hpp"
 #include "mesh_reader.hpp"
 #include "verif_hooks.hpp"
 #include <filesystem>
@@ -260,7 +261,7 @@ static Sweep make_sweep(Rng& g, int hist, const Args& a) {
     return s;
 }
 
-struct Pop { std::vector<cell_ptr> cells; std::vector<int> roles; double l_min = 0, r0 = 0, edge_min = 0, edge_max = 0; long faces = 0; std::vector<std::string> classes; bool all_static = false; };
+struct Pop { std::vector<cell_ptr> cells; std::vector<int> roles; double l_min = 0, r0 = 0, edge_min = 0, edge_max = 0; long faces = 0; std::vector<std::string> classes; bool all_static = false; long slot_states = 0; };
 
 static Pop make_population(Rng& g, int hist, const Sweep& sw, const Args& a) {
     Pop p; const double dt = sw.dt;
@@ -337,6 +338,12 @@ static Pop make_population(Rng& g, int hist, const Sweep& sw, const Args& a) {
         static const char* CLS[] = {"epithelial", "ecm", "lumen", "nucleus", "static"};
         p.classes.push_back(CLS[cls]);
         p.cells.push_back(gen::make_cell_of_class(cls, meshes[k], (unsigned)k, ct));
+        // a quarter of the cells enter the run with the slot layout a collapse followed by a split leaves behind: an unused node slot, no unused face slot
+        // (1 collapse + 1 split), or unused node and face slots (collapse only)
+        if (g.coin(0.25)) { cell_ptr cp = p.cells.back(); local_mesh_refiner lmr(1e-12 * p.r0, 1e12 * p.r0, false); edge_set dummy; bool merged = false;
+            for (int tr = 0; tr < 6 && !merged; tr++) { const auto& es = cell_tester::edges(*cp); auto it = es.begin(); std::advance(it, (long)(g.u64() % es.size())); edge e = *it; if (lmr.can_be_merged(e, cp)) { dummy.clear(); lmr.merge_edge(e, cp, dummy); merged = true; } }
+            if (merged && g.coin(0.7)) { const auto& es = cell_tester::edges(*cp); auto it = es.begin(); std::advance(it, (long)(g.u64() % es.size())); edge e = *it; dummy.clear(); lmr.split_edge(e, cp, dummy); }
+            if (merged) { cp->update_all_face_normals_and_areas(); p.slot_states++; } }
     }
     return p;
 }
@@ -532,7 +539,7 @@ static std::string run_case(const Args& a, long i, const std::string& outdir) {
         // the solver is destroyed through its own (non-virtual-base) destructor: leave that to C10, release without delete
         (void)S.release();
     }
-    if (pop.all_static) o.bin("populations_of_cells_that_never_move");
+    if (pop.all_static) o.bin("populations_of_cells_that_never_move"); if (pop.slot_states) o.bin("cells_entering_with_unused_slots", pop.slot_states);
     c.obs.i("iterations", M.iterations).i("files_written", (long)M.files.size()).i("divisions", M.divisions).i("removals", M.removals).i("first_division_it", M.first_division_it).i("first_removal_it", M.first_removal_it).i("remesh_ops", M.remesh_ops).i("cells_end", (long)cells_end).d("t_end", t_end);
     if (threw && !M.viols.empty()) { c.nontrivial = true; for (auto& v : M.viols) o.viol(v.first, v.second); goto done; }   // stopped by the monitor: its finding stands
     if (threw) { c.v = "skip"; c.msg = "run() ended with an exception: " + what.substr(0, 160); o.bin("skip:run_exception"); goto done; }
